@@ -340,6 +340,8 @@ def run_fetch(case):
     try:
         ids, commits, feats = gen_history(sd, rng, case.get("n", 18))
         rmode = rng.choice(["empty", "partial", "partial", "partial"])
+        if case["transport"] == "depth-branches":
+            rmode = "empty"      # a receiver that is shallow only through these fetches
         make_receiver(rd, sd, rng, ids, commits, rmode)
         srefs = refs_of(sd)
         pre_have = set(all_objects(rd))
@@ -449,6 +451,31 @@ def run_fetch(case):
                     target.close()
                 got = refs_of(rd)
                 tag = "depth"
+            elif transport == "depth-branches":
+                # shallow fetches of different branches one after another (no deepening of the first): the second depth window may reach
+                # below the boundary the first one left, into history the receiver never got
+                from dulwich.client import HttpGitClient
+                via = rng.choice(["tcp", "http"])
+                srv = TCPServer(sd) if via == "tcp" else HTTPServer(sd)
+                heads = sorted(n for n in srefs if n.startswith(b"refs/heads/"))
+                target = Repo(rd)
+                try:
+                    cl = TCPGitClient("127.0.0.1", port=srv.port) if via == "tcp" else HttpGitClient("http://127.0.0.1:%d/" % srv.port)
+                    order = rng.sample(heads, len(heads))
+                    for n in order[:3]:
+                        dpt = rng.choice([1, 2, 2, 3])
+
+                        def only(refs, depth=None, n=n):
+                            return [refs[n]] if n in refs else []
+                        res = cl.fetch(b"/", target, determine_wants=only, depth=dpt)
+                        target.update_shallow(res.new_shallow, res.new_unshallow)
+                        if res.refs.get(n):
+                            # as a local branch: the default graph walker offers refs/heads/* as haves on the next fetch
+                            target.refs[(b"refs/heads/" if rng.random() < 0.7 else b"refs/remotes/o/") + n[11:]] = res.refs[n]
+                finally:
+                    target.close()
+                got = refs_of(rd)
+                tag = "depth-branches/" + via
         except Exception as e:
             import traceback
             viol.append({"sig": "C05/%s/transfer-raises-%s" % (tag, type(e).__name__), "msg": str(e)[:200], "tb": traceback.format_exc()[-500:],
@@ -462,7 +489,7 @@ def run_fetch(case):
         if "sender-has-grafts" in feats:
             stats["transfers_from_a_sender_with_grafts"] = 1
         if got:
-            judge_receiver(tag, sd, rd, got, viol, stats, shallow=(transport == "depth"))
+            judge_receiver(tag, sd, rd, got, viol, stats, shallow=transport.startswith("depth"))
         for w in wire:
             judge_wire(tag, sd, w, wants, pre_have, srefs, viol, stats)
         ft = "+".join(sorted(f for f in feats if f.startswith("tag-of") or f in ("gitlink", "octopus", "multi-root")))[:60]
@@ -817,7 +844,8 @@ def run_case(case):
     return {"fetch": run_fetch, "push": run_push}[case["kind"]](case)
 
 
-FETCH_T = ["local", "local-fetch_pack", "tcp-dulwich", "tcp-dulwich-fetch_pack", "tcp-cgit-v0", "tcp-cgit-v2", "http-cgit", "subprocess-upload-pack", "depth"]
+FETCH_T = ["local", "local-fetch_pack", "tcp-dulwich", "tcp-dulwich-fetch_pack", "tcp-cgit-v0", "tcp-cgit-v2", "http-cgit", "subprocess-upload-pack", "depth",
+           "depth-branches"]
 PUSH_T = ["local", "subprocess-receive-pack", "cgit-to-dulwich-tcp"]
 
 
